@@ -1218,14 +1218,14 @@ MANIFEST = {
 }
 
 
-# region frozen catalogue (seeded/c19/typo_catalogue.json)
+# region frozen catalogue (harness/c19_catalogue.json)
 
 
 def check_frozen_catalogue(ctx):
 	"""Strings that violate a typo-list / function-alias rule, frozen from the pinned commit: the CURRENT validators must report the
 	same message for each, in any context the rule does not anchor (so a weakened or dropped pattern is a failing input)."""
 	import validation  # pylint: disable=import-error,import-outside-toplevel
-	path = os.path.join(ROOT, 'seeded', 'c19', 'typo_catalogue.json')
+	path = os.path.join(ROOT, 'harness', 'c19_catalogue.json')
 	with open(path, 'rt', encoding='utf8') as infile:
 		catalogue = json.load(infile)['entries']
 	validators = {'TypoChecker': validation.TypoChecker(), 'BasicFunctionAliasValidator': validation.BasicFunctionAliasValidator()}
